@@ -89,6 +89,11 @@ def _reset():
 
 # --------------------------------------------------------------------------- signatures of delivered objects
 
+# attributes a receiver attaches to a decoded object after decoding (the raw bytes kept for quoting in error
+# replies); they are not part of what was decoded
+_BOOKKEEPING = frozenset(["_raw_ofp"])
+
+
 def dump(o, depth=0):
   """Structural rendering of a decoded object (used when pack() itself raises)."""
   if depth > 8:
@@ -103,7 +108,7 @@ def dump(o, depth=0):
     return sorted((str(k), dump(v, depth + 1)) for k, v in o.items())
   d = getattr(o, "__dict__", None)
   if d is not None:
-    return [type(o).__name__] + sorted((k, dump(v, depth + 1)) for k, v in d.items())
+    return [type(o).__name__] + sorted((k, dump(v, depth + 1)) for k, v in d.items() if k not in _BOOKKEEPING)
   return repr(o)
 
 
